@@ -194,8 +194,11 @@ func filterOpsByVersionTime(ops []*operation.AnchoredOperation, timeStr string) 
 		return nil, fmt.Errorf("failed to parse version time[%s]: %w", timeStr, err)
 	}
 
+	// a version time before 1970 is before every anchoring time (do not let the conversion wrap around)
+	vtUnix := vt.Unix()
+
 	for _, op := range ops {
-		if op.TransactionTime <= uint64(vt.Unix()) {
+		if vtUnix >= 0 && op.TransactionTime <= uint64(vtUnix) {
 			filteredOps = append(filteredOps, op)
 		}
 	}
